@@ -160,6 +160,10 @@ def evaluate(t, atom_eval):
                 return False
             return None
     v = atom_eval(t)
+    if v is None and t[0] == "op" and t[1] in ("cmp:NotIn", "cmp:NotEq", "cmp:IsNot") and len(t[2]) == 2:
+        # the negative spelling of an atom the evaluator knows in its positive spelling
+        pos = {"cmp:NotIn": "cmp:In", "cmp:NotEq": "cmp:Eq", "cmp:IsNot": "cmp:Is"}[t[1]]
+        v = tv_not(atom_eval(("op", pos, t[2])))
     if v is None and t[0] == "const":
         # a test of a local the path has just bound to a literal (flags, results of inlined helpers)
         try:
